@@ -712,7 +712,33 @@ def _range_pos(lst, x):
     return z3.BoolVal(False), z3.IntVal(0)
 
 
+def _in_range(it, rg, x):
+    """x in range(a, b[, s]) with symbolic ends: a <= x < b and (x - a) % s == 0 for an int x (mirrored for s < 0); an integral float equal
+    to a member is a member, a non-integral float / NaN / inf is not; other types are not"""
+    a, b = NP.zi(rg.lo), NP.zi(rg.hi)
+    st = NP.conc(rg.step)
+    if st is None:
+        raise Unsupported('x in range(a, b, s) with a symbolic step')
+    if st == 0:
+        raise PyRaise(it.make_exc('ValueError', ['range() arg 3 must not be zero']))
+    if isinstance(x, bool) or (z3.is_expr(x) and x.sort() == z3.BoolSort()):
+        x = NP.zi(x)
+
+    def mem(xi):
+        if st > 0:
+            return z3.And(a <= xi, xi < b, (xi - a) % st == 0) if st != 1 else z3.And(a <= xi, xi < b)
+        return z3.And(b < xi, xi <= a, (a - xi) % (-st) == 0) if st != -1 else z3.And(b < xi, xi <= a)
+    if isinstance(x, int) or (z3.is_expr(x) and x.sort() == z3.IntSort()):
+        return mem(NP.zi(x))
+    if _is_floaty(x):
+        xx = xl(x)
+        return z3.And(xreal.is_fin(xx), z3.IsInt(xreal.r(xx)), mem(z3.ToInt(xreal.r(xx))))
+    return False
+
+
 def _contains(it, container, x):
+    if isinstance(container, M.SymRange) and M.try_iterate(it, container) is None:
+        return _in_range(it, container, x)
     if isinstance(container, SymList) and not isinstance(container, NP.EnumList) and M.try_iterate(it, container) is None:
         if getattr(container, 'range_of', None) is not None:
             return _range_pos(container, x)[0]
@@ -1036,10 +1062,43 @@ def r32_axioms(run):
     # array terms and no obligation needs it under a bound variable)
 
 
+r32i = z3.Function('r32_of_int', z3.IntSort(), z3.RealSort())       # float32(i) of an integer i (kept on the Int term: E-matching friendly)
+
+
+def r32i_axioms(run):
+    if getattr(run, '_r32i_axioms', False):
+        return
+    run._r32i_axioms = True
+    k = z3.Int('k!r32')
+    run.axiom(z3.ForAll([k], z3.And(z3.Implies(z3.And(k <= TWO24, k >= -TWO24), r32i(k) == z3.ToReal(k)),
+                                    z3.Implies(k >= 0, r32i(k) >= 0), z3.Implies(k <= 0, r32i(k) <= 0)), patterns=[r32i(k)]))
+
+
+def cast32_int(it, i):
+    """float32(i) of an integer term"""
+    run = it.run
+    run.assumed.add(R32_ASSUMPTION)
+    i = z3.simplify(NP.zi(i))
+    out = xreal.fin(r32i(i))
+    if not _ground(i) or it.pure:
+        r32i_axioms(run)
+    else:
+        apps = run.__dict__.setdefault('r32i_apps', [])
+        if not any(s.eq(i) for s in apps):
+            ri = r32i(i)
+            run.assume(z3.And(z3.Implies(z3.And(i <= TWO24, i >= -TWO24), ri == z3.ToReal(i)), z3.Implies(i >= 0, ri >= 0), z3.Implies(i <= 0, ri <= 0)))
+            for s in apps:
+                run.assume(z3.And(z3.Implies(s <= i, r32i(s) <= ri), z3.Implies(i <= s, ri <= r32i(s))))
+            apps.append(i)
+    return out
+
+
 def cast32(it, x):
     """float32(x) of a scalar (XReal / int / bool term or python number)"""
     run = it.run
     run.assumed.add(R32_ASSUMPTION)
+    if (isinstance(x, int) and not isinstance(x, bool) and abs(x) > TWO24) or (z3.is_expr(x) and x.sort() == z3.IntSort()):
+        return cast32_int(it, x)
     x = xl(x)
     t = z3.simplify(xreal.r(x))
     if z3.is_app(t) and t.decl().eq(r32):
